@@ -79,6 +79,23 @@ def m_del_mux_input_keep_children(ev, pre):
     return ev["op"] == "del_comp" and a.get("delchilds") is False and _is_mux_input(pre, a.get("target"))
 
 
+def _src_neg_rs(c):
+    try:
+        p = c["pay"]["params"]
+        return c["cls"] == "Source" and p["vo"]["v"][0] == 1 and p["rs"]["v"][0] == 0 and len(p["rs"]["v"]) > 2
+    except Exception:
+        return False
+
+
+def m_negative_source_with_rs(case, st, v=None):
+    """F1: the failing row is a Source with vo < 0 and rs > 0 (or, for a system-level clause, the
+    system contains one)"""
+    comps = st["comps"] if st else []
+    if v and v.get("op"):
+        return any(c["name"] == v["op"] and _src_neg_rs(c) for c in comps)
+    return any(_src_neg_rs(c) for c in comps)
+
+
 MATCHERS = {k[2:]: v for k, v in globals().items() if k.startswith("m_")}
 
 
@@ -90,6 +107,8 @@ def match(entry, verdict, ev, pre):
         return False
     fn = MATCHERS.get(entry["matcher"])
     try:
+        if fn.__code__.co_argcount >= 3:
+            return bool(fn(ev, pre, verdict))
         return bool(fn and fn(ev, pre))
     except Exception:
         return False
